@@ -1191,6 +1191,36 @@ fn run_pairs_t<T: Sc>(count: usize, rng: &mut StdRng, rep: &mut Report) {
                 });
             }
         }
+        // ---- C05: the same observations in another unit (an exact power of two, small and large): in the
+        // certified regime the minimiser is unique, so both fits succeed and return the same parameters,
+        // and the coefficients carry the unit
+        for up in [false, true] {
+            let e: i64 = if T::NAME == "f64" { 60 } else { 30 };
+            let e = if up { e } else { -e };
+            let f = T::of64(f64::from_bits(((1023 + e) as u64) << 52));
+            let mut twin = base.clone();
+            twin.y = base.y.map(|v| v * f);
+            if let (Some(fa), Some(fb)) = (fit_facts(&base, false), fit_facts(&twin, false)) {
+                let d = rel_close(&fa.params, &fb.params, t6);
+                let dc = match (&fa.coeffs, &fb.coeffs) {
+                    (Some(x), Some(y)) => {
+                        let xs: Vec<T> = x.iter().map(|v| *v * f).collect();
+                        rel_close(&xs, y.as_slice(), t6)
+                    }
+                    (None, None) => 0.0,
+                    _ => f64::INFINITY,
+                };
+                rep.check("C05", fa.ok && fb.ok && d <= 1.0 && dc <= 1.0, d.max(dc) * t6, || {
+                    json!({"what": "the same observations in another unit (times a power of two) are fitted differently", "label": base.label, "exponent": e,
+                           "unit_one": [fa.ok, fa.term, fa.nfev], "other_unit": [fb.ok, fb.term, fb.nfev], "dparams": d * t6, "dcoeff": dc * t6})
+                });
+                if fa.nfev == fb.nfev && fa.term == fb.term && bits_eq(&fa.params, &fb.params) {
+                    rep.count("unit_twin_fit_bitwise_equal", 1);
+                } else {
+                    rep.count("unit_twin_fit_drift", 1);
+                }
+            }
+        }
         // ---- C07: a one-column problem built through the multiple right hand side builder is
         // indistinguishable from the single right hand side problem - also in what a fit hands back,
         // and also when the fit does not succeed (an early end by lost patience)
